@@ -11,6 +11,33 @@
 2. A stratified, pairwise-covering sample of program x configuration is materialised (one package per case), run
    through the mockery binary built from the working tree, and the Go toolchain (go build + go vet over the scratch
    modules) decides the property on every written file.  Predicted-vs-measured footprint differences are drift.
+
+COVERAGE TABLE (statement clause / quantifier dimension -> where it is explored -> what is still a point or absent)
+  type shapes          Shape: 15 constructors x 37 leaves exhaustively at depth 1, curated + (thorough) full depth 2, -simulate depth 3 / 4
+                       methods (CodegenSim.tla); aliases incl. ones whose target the destination cannot name.  ABSENT: cgo types,
+                       type-parameterised methods' receivers (not Go), struct embedding of pointers, >1 method in anonymous interfaces.
+  identifiers          Ident: 125 names x 8 positions (params, variadic, results, pairs), case clashes, GENERATED names (Unnamed, GenPre:
+                       21 named types whose de-capitalised name is predeclared), blank `_` params AND results.  POINT: non-ASCII = 3 names.
+  packages             Pkgs: ordered pairs/triples of 10 packages whose names collide, x 6 names of the package under test; path shapes:
+                       name != last element (q/v2), dots+dash+version suffix (gopkg.in/go-dash.v3), internal/; packages OUTSIDE the module
+                       (Ext: stdlib io / fmt configured directly).  ABSENT: other modules (module cache), vendor/, `main` as source, cgo.
+  source file          import spelling alias / natural / dot-import (per program), several interfaces per package, function-local decls
+                       (C02 discovery).  ABSENT: several source FILES per package, build-tagged files, _test.go sources.
+  interfaces           Embed: local/foreign/stdlib/instantiated/overlapping/depth 3 + universe `error` / `any`; Generic: 9 single + 22
+                       multi-element constraints (orders, nested named, plain foreign terms, tilde composites), recursive constraint,
+                       result-only type parameters, 1-2 type parameters, named instantiations; Multi: 5-7 interfaces in ONE file.
+                       ABSENT: generated helper TYPE names colliding across interfaces (A + B_C vs A_B + C), structname colliding with a
+                       source type in-package (both arguably the user's naming), > 2 type parameters.
+  templates x options  both templates x every documented option, each written at package level, interface level (flip-all) or mixed
+                       within one file (flip-first / flip-rest) -- CodegenCfg.tla, 13,200 configurations, pairwise-covered.
+                       POINT: boilerplate-file / mock-build-tags only as on/off (C17 owns their content).
+  formatters           goimports / gofmt / noop in the pairwise cover (80% without import repair).
+  placements           same package (non-test / _test file), external _test package, sub directory (other name / same name).
+                       ABSENT: output dir spelled with `..` or symlinks (aa6ab7f class), two output files with different pkgnames in one
+                       directory (the toolchain rejects the directory: outside "type-checks together with the package it is written into").
+  go.mod spellings     plain / quoted / tab / comment / block.  ABSENT: nested modules, go.work, replace directives.
+  history              second generation over the existing output, half of it with the OTHER template into the same file; two more
+                       regenerations of same-named-package cases with byte comparison.  ABSENT: stale/broken previous output, concurrent runs.
 """
 import concurrent.futures
 import json
